@@ -306,3 +306,87 @@ func VerifC19_GetSelectedVersions() {
 	}
 	rt.Reach("getselected-end")
 }
+
+// ---- versioned file names <-> (identifier, version) without loss ----
+
+func VerifC19_FileNames() {
+	ids := []string{"a/b.zip", "a/b", "b.exe", "all/intel/geoip/geoipv4.mmdb.gz", "x/assets.tar.gz", "d/.hidden", "d/name.", "deep/er/path/file-name_x.dat"}
+	versioned := []string{"a/b_v1-2-3.zip", "a/b_v1-2-3", "b_v1-2-3.exe", "all/intel/geoip/geoipv4_v1-2-3.mmdb.gz", "x/assets_v1-2-3.tar.gz", "d/_v1-2-3.hidden", "d/name_v1-2-3.", "deep/er/path/file-name_x_v1-2-3.dat"}
+	vers := []string{"1.2.3", "0.10.0", "20.1.2", "1.2.3-beta", "0.3.1-b"}
+	i := rt.Choice("id", len(ids))
+	v := vers[rt.Choice("version", len(vers))]
+	p := GetVersionedPath(ids[i], v)
+	if v == "1.2.3" {
+		rt.Assert(p == versioned[i], "filenames/version-goes-before-the-first-dot-of-the-file-name")
+	}
+	id2, v2, ok := GetIdentifierAndVersion(p)
+	rt.Assert(ok, "filenames/versioned-path-parses")
+	rt.Assert(id2 == ids[i], "filenames/identifier-recovered")
+	rt.Assert(v2 == v, "filenames/version-recovered")
+	// and back again
+	rt.Assert(GetVersionedPath(id2, v2) == p, "filenames/path-recovered")
+	// the storage path of a version found on disk is the file it was found as
+	reg := c19Registry("/s/updates")
+	res := reg.newResource(id2)
+	rv := &ResourceVersion{resource: res, VersionNumber: v2}
+	rt.Assert(rv.versionedPath() == p, "filenames/version-points-at-the-scanned-file")
+	// a name without a version is not taken for a versioned file
+	_, _, ok = GetIdentifierAndVersion(ids[i])
+	rt.Assert(!ok, "filenames/unversioned-name-rejected")
+	rt.Reach("filenames-end")
+}
+
+// the same with symbolic file stems and version digits (regular expression
+// matching runs in the engine's interpreter over the compiled program)
+func VerifC19_FileNamesSymbolic() {
+	stem := rt.StrN("stem", 1, 2)
+	for i := 0; i < len(stem); i++ {
+		c := stem[i]
+		rt.Assume(rt.Any(rt.All(c >= 'a', c <= 'z'), rt.All(c >= '0', c <= '9'), c == '_', c == '-'))
+	}
+	ext := []string{"", ".zip", ".tar.gz", "."}[rt.Choice("ext", 4)]
+	dir := []string{"", "a/", "a/b/"}[rt.Choice("dir", 3)]
+	id := dir + stem + ext
+	d := func(name string) string {
+		c := rt.U8(name)
+		rt.Assume(rt.All(c >= '0', c <= '9'))
+		return string([]byte{c})
+	}
+	v := d("major") + "." + d("minor") + "." + d("patch")
+	if rt.Bool("two-digit-major") {
+		v = d("major2") + v
+	}
+	if rt.Bool("suffix") {
+		c := rt.U8("suffixchar")
+		rt.Assume(rt.All(c >= 'a', c <= 'z'))
+		v += "-" + string([]byte{c})
+	}
+	p := GetVersionedPath(id, v)
+	rt.ObserveStr("versioned", p)
+	id2, v2, ok := GetIdentifierAndVersion(p)
+	rt.ObserveBool("ok", ok)
+	rt.Assert(ok, "filenames/versioned-path-parses")
+	if ok {
+		rt.ObserveStr("identifier", id2)
+		rt.ObserveStr("version", v2)
+		rt.Assert(rt.EqStr(id2, id), "filenames/identifier-recovered")
+		rt.Assert(rt.EqStr(v2, v), "filenames/version-recovered")
+		rt.Assert(rt.EqStr(GetVersionedPath(id2, v2), p), "filenames/path-recovered")
+	}
+	// the other direction: a file found on disk -> pair -> the same file name
+	dashed := ""
+	for i := 0; i < len(v); i++ {
+		if v[i] == '.' {
+			dashed += "-"
+		} else {
+			dashed += string([]byte{v[i]})
+		}
+	}
+	onDisk := dir + stem + "_v" + dashed + ext
+	id3, v3, ok3 := GetIdentifierAndVersion(onDisk)
+	rt.Assert(ok3, "filenames/file-on-disk-parses")
+	if ok3 {
+		rt.Assert(rt.EqStr(GetVersionedPath(id3, v3), onDisk), "filenames/file-on-disk-recovered")
+	}
+	rt.Reach("filenames-symbolic-end")
+}
